@@ -207,7 +207,7 @@ theorem story_eamove
       intro _
       exact mem_of_ok (by simpa [endIfBlank] using htgt)
 
-theorem story_insert (htim : storiesExc rc = none)
+theorem story_insert
     (hres : resolves .StoryInsert (namedOf .StoryInsert base) (keysOf "story" rc.kids) = true) :
     Eff "story" rc.kids (mergeRc .StoryInsert rc base none)
       (specIds .StoryInsert "story" (namedOf .StoryInsert base) (keysOf "story" rc.kids)) := by
@@ -216,10 +216,9 @@ theorem story_insert (htim : storiesExc rc = none)
   have ht := mem_of_ok hres
   simp only [mergeRc, specIds, namedOf, Kind.group, elemId_eq, Kind.dedups, if_true]
   rw [findRequired_mem none ht hts]
-  simp only [htim]
   exact insertDedup_eff_at ht _ (findall_tagged base "story")
 
-theorem story_eainsert (htim : storiesExc rc = none)
+theorem story_eainsert
     (hres : resolves .EAStoryInsert (namedOf .EAStoryInsert base) (keysOf "story" rc.kids) = true) :
     Eff "story" rc.kids (mergeRc .EAStoryInsert rc base none)
       (specIds .EAStoryInsert "story" (namedOf .EAStoryInsert base) (keysOf "story" rc.kids)) := by
@@ -227,13 +226,13 @@ theorem story_eainsert (htim : storiesExc rc = none)
   simp only [mergeRc, specIds, namedOf, Kind.group, elemId_eq, Kind.dedups, if_true, srcElems_eq]
   cases ht : Xml.childText (base.find "element_target") "storyID" with
   | none =>
-    simp only [findTarget, htim, endIfBlank, Option.getD_none]
+    simp only [findTarget, endIfBlank, Option.getD_none]
     exact insertDedup_eff_end _ _ (elemsOf_tagged _ "story")
   | some t =>
     rw [ht] at hres
     have hm : some t ∈ keysOf "story" rc.kids := by simpa [endIfBlank] using hres
     rw [findTarget_mem none hm rfl]
-    simp only [htim, endIfBlank, Option.getD_some]
+    simp only [endIfBlank, Option.getD_some]
     exact insertDedup_eff_at hm _ (elemsOf_tagged _ "story")
 
 theorem story_move
